@@ -2114,6 +2114,10 @@ func ruleResolvingWriter(w *World, r *Report) {
 									if cst, ok := constInt(bo.Y); ok && ((bo.Op == token.LSS && cst <= 256 && !a.Truth) || (bo.Op == token.GEQ && cst >= 128 && cst <= 256 && a.Truth)) {
 										okPath = true
 									}
+									// the same with the constant on the left: 256 > r false, 256 <= r true
+									if cst, ok := constInt(bo.X); ok && ((bo.Op == token.GTR && cst <= 256 && !a.Truth) || (bo.Op == token.LEQ && cst >= 128 && cst <= 256 && a.Truth)) {
+										okPath = true
+									}
 									// nil test of a phi resolved along the path
 									if bo.Op == token.EQL || bo.Op == token.NEQ {
 										for _, pr := range [][2]ssa.Value{{bo.X, bo.Y}, {bo.Y, bo.X}} {
